@@ -757,6 +757,16 @@ def _dispatch_ufunc(ufunc, method, inputs, kw):
         a = _np.asarray(inputs[0], dtype=object)
         axis = kw.get("axis", 0)
         return _reduce(UF[ufunc], a, axis)
+    if method == "accumulate" and ufunc is _np.add:
+        a = _np.asarray(inputs[0], dtype=object).view(_np.ndarray)
+        if a.ndim != 1:
+            raise Unsupported("cumsum of a non-vector")
+        out_ = _np.empty(a.shape, dtype=object)
+        acc = 0
+        for i_, v in enumerate(a):
+            acc = acc + v
+            out_[i_] = acc
+        return out_.view(SymArray)
     if method == "at" or method == "accumulate" or method == "outer":
         raise Unsupported(f"ufunc method {method} of {ufunc.__name__}")
     raise Unsupported(f"ufunc {ufunc.__name__}.{method} on symbolic values")
@@ -847,6 +857,9 @@ class SymArray(_np.ndarray):
 
     def trace(self, *a, **k):
         return _sum(_np.diagonal(self.view(_np.ndarray)))
+
+    def cumsum(self, *a, **k):
+        return _dispatch_ufunc(_np.add, "accumulate", (self,), {})
 
     def squeeze(self, *a, **k):
         return self.view(_np.ndarray).squeeze(*a, **k).view(SymArray)
